@@ -248,7 +248,7 @@ fn sgr_shapes(ctx: &Ctx, rep: &mut Report) {
     let atoms = [
         "38", "48", "2", "5", "1", "3", "9", "2:7", "5:9", "38:5:1", "48:2::1:2:3", "", "38:2:1:2:3", "5:0",
         // selectors that are 2 / 5 only modulo 256 or 65536: no colour
-        "38:261:7", "48:258:1:2:3", "38:65541:9",
+        "38:261:7", "48:258:1:2:3", "38:65285:9",
     ];
     let k = ctx.tier.pick(4usize, 5usize);
     let mut lists: Vec<String> = vec![];
